@@ -298,6 +298,7 @@ func checkC08(run *h.Run) {
 		cfg := cfgs[i]
 		w, t := corsBuild(cfg, true), corsBuild(cfg, false)
 		for _, q := range reqs {
+			w = corsBuild(cfg, true) // a fresh filter per request (history effects: C09/C19)
 			got, twin := w.do(q), t.do(q)
 			results[i].cases++
 			if len(got.acHeaders()) > 0 {
